@@ -1,5 +1,39 @@
+(* C02 — property theorems only.  Each is closed by [exact]; see Sched/ProofsC02.v. *)
 From Coq Require Import List.
-From VV Require Import Sched.Model.
-Theorem C02_placeholder : forall c s, terminal s = true -> master_step c s = None.
-Proof. intros c s H. unfold terminal in H. unfold master_step. destruct (mp s); try discriminate; reflexivity. Qed.
-Print Assumptions C02_placeholder.
+From VV Require Import Sched.Model Sched.Defs Sched.ProofsC02.
+Import ListNotations.
+
+(* the specification of the final statuses is the expected rule: SKIPPED iff some hard
+   dependency is (by the same rule) FAILED or SKIPPED, otherwise DONE/FAILED by the outcome *)
+Theorem C02_spec_rule :
+  forall c t, wf_cfg c -> t < ntasks c ->
+  (spec_status c t = Some SKIPPED <->
+     exists d, In d (hdeps c t)
+               /\ (spec_status c d = Some FAILED \/ spec_status c d = Some SKIPPED))
+  /\ (spec_status c t <> Some SKIPPED ->
+      spec_status c t = Some (if ok (oc c t) then DONE else FAILED)).
+Proof. exact spec_rule. Qed.
+Print Assumptions C02_spec_rule.
+
+Theorem C02_at_most_once :
+  forall c e0 st0 clk s t, wf_cfg c -> junk_free e0 -> reachable c e0 st0 clk s -> execs st0 s t <= 1.
+Proof. exact at_most_once. Qed.
+Print Assumptions C02_at_most_once.
+
+(* from the empty environment *)
+Theorem C02_final_statuses :
+  forall c st0 clk s, wf_cfg c -> reachable c (fun _ => no_entry) st0 clk s -> mp s = MReturned ->
+  forall t, t < ntasks c ->
+    est (env s t) = spec_status c t
+    /\ execs st0 s t = (match spec_status c t with Some SKIPPED => 0 | _ => 1 end).
+Proof. exact final_statuses. Qed.
+Print Assumptions C02_final_statuses.
+
+(* corollary: any two complete runs, any worker counts *)
+Theorem C02_schedule_independent :
+  forall c c' st0 clk s st0' clk' s', wf_cfg c -> wf_cfg c' ->
+  ntasks c' = ntasks c -> deps c' = deps c -> hdeps c' = hdeps c -> order c' = order c -> oc c' = oc c ->
+  reachable c (fun _ => no_entry) st0 clk s -> reachable c' (fun _ => no_entry) st0' clk' s' ->
+  mp s = MReturned -> mp s' = MReturned -> forall t, t < ntasks c -> est (env s t) = est (env s' t).
+Proof. exact schedule_independent. Qed.
+Print Assumptions C02_schedule_independent.
